@@ -220,9 +220,15 @@ def rule_wallet(model, rep):
     rep.check("default_tag = max(secrets, key=int)" in it and "default_tag = max(secrets)" in it, R, site("AppWallet.__init__"), "default tag = newest", "default tag is the numerically / lexically largest")
 
 
+from . import c12 as _c12  # noqa: E402
+from .shared import Renamed as _Renamed  # noqa: E402
+
+
 def run(model, rep):
     rep.explanation = __doc__
     rule_dict(model, rep)
     rule_elision(model, rep)
     rule_uri(model, rep)
     rule_wallet(model, rep)
+    # keys travel as base32 / hex text in every serialisation: the helper codecs are part of the round trip
+    _c12.rule_alphabets(model, _Renamed(rep, {"C12.e": "C15.f-codec-alphabets", "C12.f": "C15.f-key-codecs"}, "C15.x-"))
